@@ -78,6 +78,18 @@ impl Ord for El {
 		self.id.cmp(&o.id)
 	}
 }
+/// the same element declaring a fixed encoded size (one wire byte), as a hand-written codec may:
+/// containers must not take that as "decoding cannot fail"
+pub struct Fel(#[allow(dead_code)] El);
+impl Decode for Fel {
+	fn decode<I: Input>(input: &mut I) -> Result<Self, Error> {
+		El::decode(input).map(Fel)
+	}
+	fn encoded_fixed_size() -> Option<usize> {
+		Some(1)
+	}
+}
+impl DecodeWithMemTracking for Fel {}
 /// a zero-sized element with a destructor
 pub struct Zel;
 impl Decode for Zel {
@@ -293,6 +305,8 @@ macro_rules! arrays {
 		all_failures::<[Zel; $n]>($cx, concat!("[Zel;", $n, "]"), &[], $n);
 		all_failures::<Box<[Zel; $n]>>($cx, concat!("Box<[Zel;", $n, "]>"), &[], $n);
 		all_failures::<[Box<El>; $n]>($cx, concat!("[Box<El>;", $n, "]"), &[], $n);
+		all_failures::<[Fel; $n]>($cx, concat!("[Fel;", $n, "]"), &[], $n);
+		all_failures::<Box<[Fel; $n]>>($cx, concat!("Box<[Fel;", $n, "]>"), &[], $n);
 	)*};
 }
 
@@ -313,6 +327,7 @@ pub fn run(args: &Args) {
 	all_failures::<[[El; 2]; 3]>(cx_, "[[El;2];3]", &[], 6);
 	all_failures::<Box<[[El; 2]; 2]>>(cx_, "Box<[[El;2];2]>", &[], 4);
 	all_failures::<[[Zel; 2]; 2]>(cx_, "[[Zel;2];2]", &[], 4);
+	all_failures::<[[Fel; 2]; 3]>(cx_, "[[Fel;2];3]", &[], 6);
 	// single values and pointers
 	all_failures::<El>(cx_, "El", &[], 1);
 	all_failures::<Box<El>>(cx_, "Box<El>", &[], 1);
@@ -460,7 +475,7 @@ pub fn run(args: &Args) {
 			});
 		}
 	}
-	let rule = "scripted element types (a 4-byte element and a zero-sized element, both with destructors that log into a ledger): for every container shape ([T;N], Box<[T;N]>, Rc/Arc, [Box<T>;N], nested arrays, Box/Rc/Arc of a value, Option, Result, tuples, derived struct / enum, repr(transparent) newtypes incl. through Box and arrays, Vec, VecDeque, LinkedList, BTreeSet, BTreeMap, Vec<Box<T>>, Box<Vec<T>>, Vec<[T;2]>, GenericArray<T,N>) every failure position 0..N x {input exhausted, malformed element, limit error from on_before_alloc_mem under decode_with_mem_limit, panic in the element decoder} plus the all-success run, plus the all-success script under every memory limit 0..=min(U,96) (U, U-1, U/2 beyond) so that each of the container's own allocation announcements is the failing one; oracle: each constructed element dropped exactly once, none dropped twice or unconstructed, live heap bytes back to the baseline, expected outcome; case = (slots, failure position, kind, #constructed, #dropped) against the ledger model";
+	let rule = "scripted element types (a 4-byte element, the same declaring encoded_fixed_size = 1, and a zero-sized element, all with destructors that log into a ledger): for every container shape ([T;N], Box<[T;N]>, Rc/Arc, [Box<T>;N], nested arrays, Box/Rc/Arc of a value, Option, Result, tuples, derived struct / enum, repr(transparent) newtypes incl. through Box and arrays, Vec, VecDeque, LinkedList, BTreeSet, BTreeMap, Vec<Box<T>>, Box<Vec<T>>, Vec<[T;2]>, GenericArray<T,N>) every failure position 0..N x {input exhausted, malformed element, limit error from on_before_alloc_mem under decode_with_mem_limit, panic in the element decoder} plus the all-success run, plus the all-success script under every memory limit 0..=min(U,96) (U, U-1, U/2 beyond) so that each of the container's own allocation announcements is the failing one; oracle: each constructed element dropped exactly once, none dropped twice or unconstructed, live heap bytes back to the baseline, expected outcome; case = (slots, failure position, kind, #constructed, #dropped) against the ledger model";
 	cx.cases.write(&args.out, "c10", args.shards);
 	cx.oracle.write(&args.out);
 	cx.stats.write(&args.out, cx.cases.len(), cx.cases.nontrivial, cx.cases.dups, cx.oracle.checks, rule);
